@@ -142,10 +142,10 @@ func step(name, desc string) {
 	}
 }
 
+// pre is called before every mutating file system call: a scheduling point (the real scheduler can run any other
+// goroutine between two system calls), for watched and unwatched files alike.
 func pre(name string) {
-	if watched(recorder(), name) {
-		simrt.Yield("fs")
-	}
+	simrt.Yield("fs")
 }
 
 // File wraps *os.File so that writes through it are journalled.
@@ -159,6 +159,7 @@ func (f *File) Write(b []byte) (int, error) {
 		return 0, os.ErrInvalid
 	}
 	if !watched(recorder(), f.name) {
+		pre(f.name)
 		return f.File.Write(b)
 	}
 	n := 0
